@@ -169,6 +169,10 @@ var rdnAlpha = []refsid.RDN{
 	// DC values are not host-name labels (AD-integrated DNS zones: "_msdcs", "@", "example.com" as ONE value), and
 	// '@' occurs in ordinary RDN values (contacts named after a mail address)
 	{"DC", "lab_test"}, {"DC", "_msdcs"}, {"DC", "@"}, {"CN", "jdoe@partner.org"}, {"DC", "münchen"},
+	// letters whose upper- or lower-case form has another byte length in UTF-8 (dotless i and long s shrink, U+0250
+	// and U+023A grow, U+0130 shrinks when lowered), in front of the DC components and inside one: positions taken
+	// in a case-mapped copy of the DN do not fit the DN itself
+	{"CN", "Işık Yıldız"}, {"OU", "ɐſ"}, {"CN", "İȺ"}, {"DC", "ıſɐ"},
 }
 
 func dns(c *vf.Ctx) {
